@@ -611,3 +611,15 @@ func (w *UpdateWriter) WriteMessageFlags(seqNum uint32, uid imap.UID, flags []im
 	respWriter.WriteFlags(flags)
 	return respWriter.Close()
 }
+
+// discardLongLine discards the remainder of a line which didn't fit in the
+// read buffer (bufio.Reader.ReadLine returned isPrefix), so that it isn't
+// interpreted as a new command.
+func discardLongLine(br *bufio.Reader) error {
+	for {
+		_, isPrefix, err := br.ReadLine()
+		if err != nil || !isPrefix {
+			return err
+		}
+	}
+}
